@@ -865,8 +865,8 @@ pub fn encap_preview(
         return Err(EncapError::ErrorInvalidLabel);
     }
 
-    // check protocol_type
-    if protocol_type < SECOND_RANGE_PTYPE {
+    // check protocol_type is valid, i.e. not in range [MAX_MANDATORY_VAL_PTYPE, SECOND_RANGE_PTYPE[ as in encap
+    if (MAX_MANDATORY_VAL_PTYPE..SECOND_RANGE_PTYPE).contains(&protocol_type) {
         return Err(EncapError::ErrorProtocolType);
     }
 
